@@ -22,3 +22,6 @@ func VerifVerify(io VerifFileIO, parPath string, options VerifyOptions) (VerifyR
 func VerifRepair(io VerifFileIO, parPath string, options RepairOptions) (RepairResult, error) {
 	return repair(io, parPath, options)
 }
+
+// VerifCheckFilename exposes checkFilename.
+func VerifCheckFilename(filename string) error { return checkFilename(filename) }
